@@ -47,6 +47,15 @@ fn instance(cities: usize, which: u8) -> TspP {
         }
         return TspP { n: cities, dist, instr: Instr::new() };
     }
+    if which == 3 {
+        // a sparse road network (missing roads = infinite distance) in which city 0 has one road only: every tour is infeasible
+        let mut t = TspP::line(&(0..cities - 1).map(|i| 1.0 + (i % 3) as f64).collect::<Vec<_>>(), Instr::new());
+        for j in 2..cities {
+            t.dist[0][j] = f64::INFINITY;
+            t.dist[j][0] = f64::INFINITY;
+        }
+        return t;
+    }
     let gaps: Vec<f64> = match (cities, which) {
         (2, _) => vec![1.5],
         (6, 0) => vec![1.0, 2.0, 1.0, 3.0, 1.0],
@@ -331,6 +340,13 @@ pub fn cases(thorough: bool) -> Vec<AcoCase> {
         v.push(AcoCase { cities: 4, instance: 2, ants, alpha, beta, evap: 0.1, bounds: None, default_pher: 1.0, decay: 1.0, long: false, via_template: true });
         v.push(AcoCase { cities: 4, instance: 2, ants, alpha, beta, evap: 0.1, bounds: Some((2.0, 0.5)), default_pher: 1.0, decay: 1.0, long: false, via_template: false });
     }
+    // every tour infeasible (infinite length): nothing to deposit, everything else as usual
+    for n in [4usize, 5] {
+        for (dp, evap) in [(1.0, 0.5), (5.0, 0.1)] {
+            v.push(AcoCase { cities: n, instance: 3, ants: 2, alpha: 1.0, beta: 1.0, evap, bounds: Some((2.0, 0.5)), default_pher: dp, decay: 1.0, long: false, via_template: n == 4 });
+            v.push(AcoCase { cities: n, instance: 3, ants: 2, alpha: 1.0, beta: 1.0, evap, bounds: None, default_pher: dp, decay: 1.0, long: false, via_template: n == 5 });
+        }
+    }
     for &n in &cities {
         for inst in 0..2u8 {
             for (ants, alpha, beta, evap) in [(2usize, 1.0, 1.0, 0.1), (1, 0.0, 2.0, 0.5), (3, 2.0, 0.0, 1.0), (0, 1.0, 1.0, 0.0), (2, 2.0, 2.0, 0.5)] {
@@ -368,6 +384,7 @@ fn run_case(c: &AcoCase, iters: u32) -> CaseOut {
 pub fn run(rep: &mut Report) {
     let thorough = rep.tier == Tier::Thorough;
     rep.alpha("ant_system and max_min_ant_system templates (hook H2) and harness-assembled loops over AcoGeneration + AsPheromoneUpdate / MinMaxPheromoneUpdate: symmetric line instances with 3..5 cities incl. distance ratios of 10^6, ants 0..3 (>= 1 for max-min), alpha/beta in {0,1,2}, evaporation in {0,0.1,0.5,1}, two bound pairs");
+    rep.alpha("sparse instances in which every tour is infeasible (infinite length); instances of 300 and 1100 (thorough 2100, 4200) cities, one execution each");
     rep.alpha("environment: default generator stream with at most one (thorough: menu of 19 words; quick: 8) replaced word at every draw position of the run; observer after every generation and around every pheromone update");
     rep.assume("reference update: evaporate every trail by (1 - evaporation), then deposit 1/length symmetrically on the consecutive edges of the rewarded tours (ant system: the sampled tours, or all tours; max-min: one tour of minimal length), relative tolerance 1e-12; ties between equally long best tours accept a deposit on either");
     let iters = if thorough { 4 } else { 3 };
@@ -384,6 +401,38 @@ pub fn run(rep: &mut Report) {
             if let Some((s, d)) = check_second_run(n1, n2, mmas, rep.seed) {
                 part.violate(s, d, json!({"kind": "second-run", "n1": n1, "n2": n2, "mmas": mmas, "seed": rep.seed}));
             }
+        }
+    }
+    rep.push(part);
+    // instances with hundreds / thousands of cities: one execution each on the default generator stream
+    let mut part = Part::new("aco.large-instances");
+    part.caps_hit.push("large instances are run once on the default generator stream, not under replaced words".to_string());
+    let sizes: Vec<usize> = if thorough { vec![300, 1100, 2100, 4200] } else { vec![300, 1100] };
+    let large: Vec<AcoCase> = sizes
+        .iter()
+        .flat_map(|&n| {
+            [None, Some((2.0, 0.05))].into_iter().map(move |b| AcoCase { cities: n, instance: 0, ants: if n > 2000 { 1 } else { 2 }, alpha: 1.0, beta: 2.0, evap: 0.2, bounds: b, default_pher: 1.0, decay: 1.0, long: false, via_template: true })
+        })
+        .collect();
+    let res: Vec<CaseOut> = large
+        .par_iter()
+        .map(|c| {
+            let cfg = Cfg::deviations(&menu, 0, rep.seed ^ fnv(&format!("{:?}", c)));
+            let (out, _) = tape::run_once(&cfg, &[], || run_case(c, 2));
+            match out {
+                Outcome::Done(o) => o,
+                Outcome::Panic(m) => (vec![(format!("C19 {} large-instance panic", if c.bounds.is_some() { "max-min" } else { "ant-system" }), format!("{:?}: {}", c, m.chars().take(300).collect::<String>()))], 0, vec![], Ok(()), vec![]),
+                _ => (vec![], 0, vec![], Ok(()), vec![]),
+            }
+        })
+        .collect();
+    for (c, (viols, steps, _, _, mats)) in large.iter().zip(res) {
+        part.traces += 1;
+        part.transitions += steps;
+        part.states += mats.len() as u64;
+        part.outcome(format!("n={}", c.cities));
+        for (s, d) in viols {
+            part.violate(s, d.chars().take(600).collect::<String>(), json!({"large_case": format!("{:?}", c), "cities": c.cities, "mmas": c.bounds.is_some(), "seed": rep.seed}));
         }
     }
     rep.push(part);
@@ -435,6 +484,17 @@ pub fn run(rep: &mut Report) {
 }
 
 pub fn replay(case: &Value) -> Result<Vec<(String, String)>, String> {
+    if let Some(n) = case["cities"].as_u64() {
+        let n = n as usize;
+        let c = AcoCase { cities: n, instance: 0, ants: if n > 2000 { 1 } else { 2 }, alpha: 1.0, beta: 2.0, evap: 0.2, bounds: if case["mmas"].as_bool() == Some(true) { Some((2.0, 0.05)) } else { None }, default_pher: 1.0, decay: 1.0, long: false, via_template: true };
+        let cfg = Cfg::deviations(&MENU8, 0, case["seed"].as_u64().unwrap_or(0) ^ fnv(&format!("{:?}", c)));
+        let (out, _) = tape::run_once(&cfg, &[], || run_case(&c, 2));
+        return Ok(match out {
+            Outcome::Done(o) => o.0.into_iter().map(|(s, d)| (s, d.chars().take(600).collect::<String>())).collect(),
+            Outcome::Panic(m) => vec![(format!("C19 {} large-instance panic", if c.bounds.is_some() { "max-min" } else { "ant-system" }), m)],
+            _ => vec![],
+        });
+    }
     if case["kind"].as_str() == Some("second-run") {
         return Ok(check_second_run(case["n1"].as_u64().unwrap_or(3) as usize, case["n2"].as_u64().unwrap_or(3) as usize, case["mmas"].as_bool().unwrap_or(false), case["seed"].as_u64().unwrap_or(0)).into_iter().collect());
     }
